@@ -100,14 +100,25 @@ def verify(contract: Contract, registry, repo=None, case_index=None) -> Function
             rep.cases += 1
             fname = f"{contract.name}[{case.label}]" if case.label else contract.name
 
+            own = {a.arg for a in (fndef.args.vararg, fndef.args.kwarg) if a is not None}     # *args / **kwargs: the callee's own objects
+
             def make_env(ex, case=case):
                 ex.on_yield = case.on_yield
                 env = case.make_env(ex)
                 ex.entry_nhyps = len(ex.ctx.hyps)
+                # frame: a dict or list handed over by the caller as an ordinary argument must come back as it was
+                ex.container_arguments = {k: (v, _container_snapshot(v)) for k, v in env.items()
+                                          if isinstance(v, (dict, list)) and k not in own}
                 return env
 
+            def on_outcome(out, case=case):
+                for k, (obj, snap) in getattr(out.ex, "container_arguments", {}).items():
+                    out.ex.oblige(f"frame.argument_{k}_not_modified", z3.BoolVal(_container_snapshot(obj) == snap), "frame",
+                                  note=f"the {type(obj).__name__} passed as `{k}` belongs to the caller: no entry added, removed or replaced")
+                case.check(out)
+
             outcomes = explore(mod, fndef, registry, make_env, fname, loops=case.loops, owner=contract,
-                               on_outcome=case.check)
+                               on_outcome=on_outcome)
             for out in outcomes:
                 rep.paths += 1
                 rep.obligations.extend(out.ctx.obls)
@@ -121,6 +132,12 @@ def verify(contract: Contract, registry, repo=None, case_index=None) -> Function
         rep.obligations = static_part
     rep.gen_s = round(time.time() - t0, 3)
     return rep
+
+
+def _container_snapshot(v):
+    if isinstance(v, dict):
+        return tuple((k, id(x)) for k, x in v.items())
+    return tuple(id(x) for x in v)
 
 
 def raise_(exc, node=None, info=None):
